@@ -32,6 +32,7 @@ SURELY_HUGE_FORCE = {'nan', '+inf', '-inf', '+1e300', '-1e300'}
 STATE = ('qpos', 'qvel', 'act')
 KNOWN_RANK = 'C30:newton-rank-deficient-mju_error-on-huge-finite-state'
 KNOWN_RK4 = 'C30:rk4-substages-unchecked-nonfinite-state-after-step'
+KNOWN_CTRLD = 'C30:implicit-derivative-uses-raw-ctrl'
 
 
 def warn_view(lib, d):
@@ -194,7 +195,7 @@ def run_injection(lib, variant, ck, case):
     # overwritten an earlier one): nan/inf propagate through J'f to every dof of the chain; a finite 1e300 only where the
     # Jacobian is certainly non-zero (generalized force on a dof; any wrench on a body below a free joint)
     def final_val(f, i):
-      for ff, ii, v in step_inputs:
+      for ff, ii, v in reversed(step_inputs):      # the last write wins
         if ff == f and ii == i:
           return v
       return float(getattr(d, f).reshape(-1)[i])
@@ -213,6 +214,12 @@ def run_injection(lib, variant, ck, case):
           sure_force = True
         if huge and body_below_free_joint(m, b):
           sure_force = True
+    # known finding: the implicit integrators' actuator-velocity derivative reads d->ctrl directly (neither clamped nor
+    # zeroed when bad) for actuators whose gain depends on velocity (e.g. <damper>)
+    raw_ctrl_deriv = False
+    if m.nu and int(m.opt.integrator) in (E.mjINT_IMPLICIT, E.mjINT_IMPLICITFAST) and act_on:
+      gp = np.asarray(m.actuator_gainprm).reshape(m.nu, -1)
+      raw_ctrl_deriv = bool(np.any(gp[:, 2] != 0)) and any(is_bad(float(x), M) for x in ctrl_eff)
     # twin for the BADCTRL law: same data, ctrl zeroed ("set all to 0 if any are bad")
     if sure_badctrl and act_on and bp < 0 and bv < 0 and not m.nhistory:
       zc = lib.copy_data(m, d)
@@ -249,6 +256,11 @@ def run_injection(lib, variant, ck, case):
             ck.violation(msg, dict(xml=gm.xml, seed=seed, inj=inj, noreset=noreset, mode=mode, presteps=presteps),
                          bucket='nonfinite-rk4', fingerprint=KNOWN_RK4)
             labels.append('nonfinite-after-step:RK4')
+            return
+          if raw_ctrl_deriv:
+            ck.violation(msg, dict(xml=gm.xml, seed=seed, inj=inj, noreset=noreset, mode=mode, presteps=presteps),
+                         bucket='nonfinite-implicit-raw-ctrl', fingerprint=KNOWN_CTRLD)
+            labels.append('nonfinite-after-step:implicit-raw-ctrl')
             return
           raise Violation(msg, bucket='nonfinite-' + f)
 
@@ -320,8 +332,13 @@ def run_injection(lib, variant, ck, case):
                   a.reshape(-1)[i] = v
             do_step(lib, m, zc, mode, between_zero)
             if not same_bits(st1, state_bits(zc)):
-              raise Violation('bad ctrl: result differs from the same step with ctrl = 0 [variant=%s]' % variant,
-                              bucket='badctrl-zero')
+              msg = 'bad ctrl: result differs from the same step with ctrl = 0 [variant=%s]' % variant
+              if raw_ctrl_deriv:
+                ck.violation(msg, dict(xml=gm.xml, seed=seed, inj=inj, noreset=noreset, mode=mode, presteps=presteps),
+                             bucket='badctrl-zero-implicit', fingerprint=KNOWN_CTRLD)
+                labels.append('badctrl:implicit-derivative-raw-ctrl')
+              else:
+                raise Violation(msg, bucket='badctrl-zero')
       if ref_acc:
         # the model is ill-posed at its own reset state (a fresh mjData stepped once already raises BADQACC, e.g. a
         # singular inertia matrix): resetting cannot produce finite values; counted, not judged for finiteness
@@ -581,15 +598,17 @@ def handler(job):
   lib = mj.load(variant)
   ck = asanproc.WorkerCheck('C30', job['tier'], job['seed'])
   name = '%s-%s-%d' % (job['family'], variant, job['shard'])
+  shrink = variant != 'asan'       # shrinking under ASan costs minutes; the release shards shrink
   if job['family'] == 'inject':
-    ck.run_hypothesis(lambda case: run_injection(lib, variant, ck, case), case_strategy(), job['n'], name=name)
+    ck.run_hypothesis(lambda case: run_injection(lib, variant, ck, case), case_strategy(), job['n'], name=name,
+                      shrink=shrink)
   elif job['family'] == 'forward':
-    ck.run_hypothesis(lambda case: run_forward(lib, variant, ck, case), forward_strategy(), job['n'], name=name)
+    ck.run_hypothesis(lambda case: run_forward(lib, variant, ck, case), forward_strategy(), job['n'], name=name, shrink=shrink)
   elif job['family'] == 'fd':
-    ck.run_hypothesis(lambda case: run_fd(lib, variant, ck, case), fd_strategy(), job['n'], name=name)
+    ck.run_hypothesis(lambda case: run_fd(lib, variant, ck, case), fd_strategy(), job['n'], name=name, shrink=shrink)
   else:
     ck.run_hypothesis(lambda case: run_unstable(lib, variant, ck, case, job['nsteps']), unstable_strategy(), job['n'],
-                      name=name)
+                      name=name, shrink=shrink)
   out = ck.export()
   out['extra']['wall_' + name] = round(time.time() - t0, 1)
   return out
